@@ -378,18 +378,49 @@ def _r_view(root: Any, op: dict, a: Action, idx: Any) -> Action:
         if raw is None or rawcur is None:
             return
         now = list(raw)
-        if 'vals' in op:
-            a.removed = [x for x in rawcur if not _ident_in(x, now)]
-            a.inserted = [x for x in now if not _ident_in(x, rawcur)]
-            a.changed = [x for x in rawcur if _ident_in(x, now)] if name in ('set', 'setslice', 'reverse') else []
+        a.ref['actual_removed'] = [x for x in rawcur if not _ident_in(x, now)]
+        a.inserted = [x for x in now if not _ident_in(x, rawcur)]
     if 'vals' in op:
         a._after = after
-        if name in ('set', 'setslice', 'reverse'):
-            a.changed = list(rawcur or [])
+        # which raw items the operation is entitled to touch, from list semantics on the items the view shows
+        vis = [x for x in (rawcur or []) if view_visible(a.prop, x)]
+        a.ref['visible_raw'] = vis
+        if a.expect_exc is None and not a.refusal_documented and len(vis) == len(cur):
+            pos = list(range(len(vis)))
+            try:
+                if name in ('remove', 'discard'):
+                    if cur:
+                        v0 = cur[i % len(cur)]
+                        hit = [t for t in pos if cur[t] == v0]
+                        gone = hit[:1] if name == 'remove' else hit
+                    else:
+                        gone = []
+                    a.removed = [vis[t] for t in gone]
+                elif name in ('set', 'setslice', 'reverse'):
+                    sel = pos if name == 'reverse' else ([pos[i]] if name == 'set' else pos[slice(i, j, k)])
+                    a.changed = [vis[t] for t in sel]
+                else:
+                    left = list_apply(pos, name, i, j, k, [-1] * len(new))
+                    a.removed = [vis[t] for t in pos if t not in left]
+            except (IndexError, ValueError, NotApplicable):
+                pass
     if op.get('misfit'):
         a.syntax_ok = False
     a._run = lambda: wrapper_call(w, name, i, j, k, new, cur)
     return a
+
+
+VIEW_VISIBLE = {
+    'raw_postings': lambda x: type(x).__name__ == 'Posting', 'raw_directives': lambda x: not isinstance(x, BlockComment),
+    'raw_meta': lambda x: type(x).__name__ == 'MetaItem', 'meta': lambda x: type(x).__name__ == 'MetaItem',
+    'tags': lambda x: type(x).__name__ == 'Tag', 'links': lambda x: type(x).__name__ == 'Link',
+    'currencies': lambda x: type(x).__name__ == 'Currency', 'values': lambda x: True,
+}
+
+
+def view_visible(prop: str, x: Any) -> bool:
+    f = VIEW_VISIBLE.get(prop)
+    return True if f is None else bool(f(x))
 
 
 def _r_map(root: Any, op: dict, a: Action, idx: Any) -> Action:
@@ -741,6 +772,49 @@ def token_lexeme(g: L.G, rule: str) -> str:
     return g.chars(L.LOW + ' \n', 0, 5)
 
 
+def respell(g: L.G, rule: str, text: str) -> Optional[str]:
+    """Another lexeme of the same class with the SAME value as `text` (a different spelling)."""
+    if rule in ('BLOCK_COMMENT', 'INLINE_COMMENT'):
+        lines = text.split('\n')
+        out = []
+        for ln in lines:
+            i = ln.find(';')
+            if i < 0:
+                return None
+            body = ln[i + 1:]
+            if rule == 'INLINE_COMMENT':
+                out.append(ln[:i + 1] + (body[1:] if body.startswith(' ') else ' ' + body))
+            else:
+                out.append(ln)
+        if rule == 'BLOCK_COMMENT':
+            bodies = [ln[ln.find(';') + 1:] for ln in lines]
+            if all(b.startswith(' ') or not b.rstrip('\r') for b in bodies):
+                out = [ln[:ln.find(';') + 1] + (ln[ln.find(';') + 2:] if ln[ln.find(';') + 1:].startswith(' ') else ln[ln.find(';') + 1:]) for ln in lines]
+                if any(b[1:2] == ' ' for b in bodies if b.startswith(' ')):
+                    return None  # removing one blank would change which blank is "the" separator
+            else:
+                out = [ln[:ln.find(';') + 1] + ' ' + ln[ln.find(';') + 1:] if ln[ln.find(';') + 1:].rstrip('\r') else ln for ln in lines]
+        new = '\n'.join(out)
+        return new if new != text else None
+    if rule == 'DATE':
+        return text.replace('-', '/') if '-' in text else text.replace('/', '-')
+    if rule == 'NUMBER':
+        if '.' not in text:
+            return text + '.'
+        if text.endswith('.'):
+            return text[:-1]
+        return text + '0' if False else None
+    if rule == 'TRANSACTION_FLAG':
+        return 'txn' if text == '*' else ('*' if text == 'txn' else None)
+    if rule == 'ESCAPED_STRING':
+        for ch in 'aeiou xyz':
+            k = text.find(ch, 1, len(text) - 1)
+            if k > 0 and text[k - 1] != '\\':
+                return text[:k] + '\\' + text[k:] if ch not in 'ntrfb' else None
+        return None
+    return None
+
+
 def gen_tok(g: L.G, root: Any, kinds: tuple = ('value', 'raw', 'indent')) -> Optional[dict]:
     toks = O.store_tokens(root.token_store)
     if not toks:
@@ -763,6 +837,11 @@ def gen_tok(g: L.G, root: Any, kinds: tuple = ('value', 'raw', 'indent')) -> Opt
         op['v'] = token_value(g, rule)
     elif kind == 'raw':
         op['t'] = token_lexeme(g, rule)
+        if g.p(0.35):
+            r = respell(g, rule, t.raw_text)   # same value, different spelling: the characters must still be replaced
+            if r is not None:
+                op['t'] = r
+                op['respell'] = True
     else:
         op['t'] = g.chars(' \t', 0, 5)
     return op
@@ -956,7 +1035,7 @@ def propose(g: L.G, root: Any, families: list[str], misfit_prob: float = 0.0, ho
 
 
 def build_program(rnd: Any, cfg: L.Cfg, families: list[str], max_ops: int, parse: Callable[[str], Any],
-                  misfit_prob: float = 0.0, min_dirs: int = 1) -> dict:
+                  misfit_prob: float = 0.0, min_dirs: int = 1, stick: float = 0.0, prime: Optional[Callable[[Any], None]] = None) -> dict:
     """State-aware generation: draws a document, then operations that are applicable in the state reached so far
     (each drawn operation is applied to a scratch copy to advance the state)."""
     g = L.G(rnd, cfg)
@@ -968,6 +1047,12 @@ def build_program(rnd: Any, cfg: L.Cfg, families: list[str], max_ops: int, parse
         return case
     nops = g.n(1, max_ops)
     hot: set = set()
+    if prime is not None and g.p(0.5):
+        case['prime'] = True
+        try:
+            prime(root)
+        except Exception:  # noqa: BLE001
+            pass
     for _ in range(nops):
         try:
             op = propose(g, root, families, misfit_prob, hot)
@@ -981,6 +1066,8 @@ def build_program(rnd: Any, cfg: L.Cfg, families: list[str], max_ops: int, parse
             act.run()
             for x in act.inserted:
                 hot.update(id(m) for m, _ in O.walk(x) if isinstance(m, base.RawTreeModel))
+            if stick and act.P is not None and g.p(stick):
+                hot.add(id(act.P))  # keep working on the same model: aliasing bugs need several operations on one list
         except NotApplicable:
             case['ops'].pop()
         except Exception:  # noqa: BLE001
